@@ -252,7 +252,13 @@ func mutateString(r *scen.Rand, s string, av Avoid, multi bool) string {
 				return t
 			}
 		}
-		switch r.Intn(12) {
+		kind := r.Intn(12)
+		if len(s) > 8000 {
+			// very long lines: small edits only (a full rewrite makes the library's
+			// character diff burn seconds of CPU per call)
+			kind = []int{0, 1, 2, 4, 4, 10}[r.Intn(6)]
+		}
+		switch kind {
 		case 0:
 			t = s + "\n"
 		case 1:
